@@ -139,7 +139,13 @@ def run(ctx):
         pts, fam = gen.dyadic_curve(rng, n, rng.choice(['walk', 'plateau', 'collinear0', 'vshape', 'convex', 'concave', 'steps', 'elbows']), scale_exp=0)
         if fam == 'collinear0':
             pts[:, 1] = np.round(pts[:, 1] * 4) / 4
-        chain(ctx, pts, fam)
+        # magnitude variants: the orientation test must stay exact at a large common offset (timestamps) and at tiny scale
+        pts, vt = gen.magnitude(rng, pts, 0.3, ('xoff50', 'xoff50', 'xoff30', 'xyoff30', 'xytiny30', 'yoff30'))
+        if vt == '@xoff50' and rng.random() < 0.5:
+            pts = pts.copy()
+            pts[:, 1] = np.round(pts[:, 1]) * rng.choice([1.0, 64.0, 4096.0])      # steep integer heights over timestamp-like x
+            vt += '-steep'
+        chain(ctx, pts, fam + vt)
     for _ in range(400 if quick else 8000):
         k = rng.randrange(3, 10)
         lim = rng.choice([2, 3, 5, 50])
@@ -148,7 +154,16 @@ def run(ctx):
             S.add((rng.randrange(-lim, lim + 1), rng.randrange(-lim, lim + 1)))
         L = list(S)
         rng.shuffle(L)
-        graham(ctx, np.array(L, float), f'pointset-lim{lim}')
+        P_ = np.array(L, float)
+        u = rng.random()
+        tag = ''
+        if u < 0.1:
+            P_, tag = P_ + 2.0 ** 30, '@off30'
+        elif u < 0.2:
+            P_, tag = P_ + np.array([2.0 ** 50, 0.0]), '@xoff50'
+        elif u < 0.28:
+            P_, tag = P_ * 2.0 ** -30, '@tiny30'
+        graham(ctx, P_, f'pointset-lim{lim}{tag}')
 
 
 def replay(ctx, body):
